@@ -813,6 +813,22 @@ pub fn c08(a: &Args) -> CaseSet {
             }
         }
     }
+    // arguments written without blanks that contain an alphabetic binary operator between operands (`2max3`)
+    {
+        let ix = |n: &str| t0.iter().position(|o| o.repr == n && o.bin.is_some()).unwrap();
+        let l = |s: &str| Term::Lit(s.to_string());
+        let cases: Vec<(&str, Term, Vec<&str>)> = vec![
+            ("max(5,2max3)", tbin(ix("max"), l("5"), tbin(ix("max"), l("2"), l("3"))), vec![]),
+            ("atan2(x,1max2)", tbin(ix("atan2"), Term::Var(0), tbin(ix("max"), l("1"), l("2"))), vec!["x"]),
+            ("max(x,2atan2y)", tbin(ix("max"), Term::Var(0), tbin(ix("atan2"), l("2"), Term::Var(1))), vec!["x", "y"]),
+            ("max(2max3,x)+1", tbin(ix("+"), tbin(ix("max"), tbin(ix("max"), l("2"), l("3")), Term::Var(0)), l("1")), vec!["x"]),
+            ("sin(max(1,2atan2x))", tun(t0.iter().position(|o| o.repr == "sin").unwrap(), tbin(ix("max"), l("1"), tbin(ix("atan2"), l("2"), Term::Var(0)))), vec!["x"]),
+            ("max(1,max(2,3max4))", tbin(ix("max"), l("1"), tbin(ix("max"), l("2"), tbin(ix("max"), l("3"), l("4")))), vec![]),
+        ];
+        for (text, want, vars) in cases { let vars: Vec<String> = vars.iter().map(|s| s.to_string()).collect();
+            for prog in [Prog::Flat(text.into()), Prog::FlatWo(text.into()), Prog::Deep(text.into())] {
+                add_expect(&mut cs, &t0, prog, vec![Query::Vars, Query::Eval(vars.len())], format!("corpus: {text}"), "operator-inside-an-argument-without-blanks", 3, &want, &vars); } }
+    }
     // a group nested hundreds of parentheses deep inside the second argument of a call, followed by more of that argument
     // (flat forms only: the recursive deep parser is out of its depth here, known finding F10)
     for &k in [100usize, 255, 256, 257, 300, 520].iter() {
@@ -864,7 +880,7 @@ pub fn c10(a: &Args) -> CaseSet {
     // between literals one of which belongs to a tighter operator (the schedule of the operand must not be reused)
     {
         let tb = std_tables()[0].clone();
-        for text in ["x+y/2+1", "x+y*2+3", "x+2+3*y", "x+y^2+1", "x*y^2*3", "x+1+2", "2+x+3*4", "x*2*3+1", "1+x*2*3", "x+y-2+3", "x*y/2*3"] {
+        for text in ["x+y/2+1", "x+y*2+3", "x+2+3*y", "x+y^2+1", "x*y^2*3", "x+1+2", "2+x+3*4", "x*2*3+1", "1+x*2*3", "x+y-2+3", "x*y/2*3", "x+y max z", "x max y+z", "x atan2 y+z", "x+y atan2 z max 2"] {
             set_table(&tb);
             use exmex::Express;
             let Ok(fx) = FE::parse_wo_compile(Box::leak(text.to_string().into_boxed_str())) else { continue };
